@@ -42,6 +42,10 @@ def check(rep, ctx):
     for row in generated_modules(ctx):
         rep.check(R_GEN, row["ok"], construct="codegen.generate_schema:generate_models", stmt=row["case"], message=row["message"],
                   file="codegen/generate_schema.py", line=0)
+    from ..gen_tables import naming_rows
+    for row in naming_rows(ctx):
+        if row["construct"].endswith(":basic_name"):  # the package a definition lands in (the path half of C14-path, generator side)
+            rep.check(R_GEN, row["ok"], construct=row["construct"], stmt=row["stmt"], message=row["message"], file=row["file"], line=row["line"])
     families = collections.defaultdict(dict)  # (api, type) -> version -> top class
     for mname, m in sorted(S.modules.items()):
         tops = S.top_level(m)
